@@ -67,11 +67,19 @@ pub struct PhyInner {
     pub pended: Option<(usize, &'static str)>,
     /// kind of every environment position consumed so far
     pub kinds: Vec<&'static str>,
+    /// a call that consumes environment positions beyond this one does not return (panics; set by C18)
+    pub budget_end: Option<usize>,
 }
 
 impl PhyInner {
     fn step(&mut self, what: &'static str) -> bool {
         let p = self.pos;
+        if let Some(b) = self.budget_end
+            && p > b
+        {
+            self.budget_end = None;
+            panic!("environment-call budget exceeded: the call does not return");
+        }
         self.pos += 1;
         self.kinds.push(what);
         if self.fault_at == Some(p) {
@@ -88,7 +96,7 @@ pub struct Env(pub Rc<RefCell<PhyInner>>);
 
 impl Env {
     pub fn new(chip: Box<dyn ChipModel>) -> Env {
-        Env(Rc::new(RefCell::new(PhyInner { chip, log: vec![], iv_log: vec![], pos: 0, fault_at: None, pend_at: None, faulted: None, stuck: None, pended: None, kinds: vec![] })))
+        Env(Rc::new(RefCell::new(PhyInner { chip, log: vec![], iv_log: vec![], pos: 0, fault_at: None, pend_at: None, faulted: None, stuck: None, pended: None, kinds: vec![], budget_end: None })))
     }
     pub fn spi(&self) -> MockSpi {
         MockSpi(self.0.clone())
